@@ -1,0 +1,34 @@
+//go:build verif
+
+package varutil
+
+// Machine-checked contracts for /verif (gowp). Comment-only file: it adds no code.
+// Clause language: see /verif/DESIGN.md §2.2. Loops are numbered in source order.
+
+//@ func ReadArguments [C17]
+//@   requires reader != nil
+//@   requires rpos(reader) >= 0
+//@   modifies $g.rpos, E:uint8, E:string
+// -- stops exactly at the command's newline: the last byte consumed is '\n'
+//@   ensures err == nil && !eof ==> rpos(reader) >= 1 && rinput(payload(reader))[rpos(reader) - 1] == '\n'
+//@   ensures eof ==> err == nil || args == nil
+// -- main loop: an argument is open unless a separator was seen
+//@   loop 1 invariant !isSeparated ==> len(args) >= 1
+//@   loop 1 invariant rpos(reader) >= 0
+//@   loop 1 invariant len(buf) == 1
+// -- a word can only be continued (isSeparated cleared) by opening a new argument
+//@   loop 1 step prev(isSeparated) && !isSeparated ==> len(args) == prev(len(args)) + 1
+//@   loop 1 step len(args) == prev(len(args)) || len(args) == prev(len(args)) + 1
+// -- every byte appended to the current argument is exactly the byte read
+//@   at_store current requires $new == cat($old, sbyte(ch))
+// -- quoted run
+//@   loop 2 invariant len(args) >= 1 && rpos(reader) >= 0 && len(buf) == 1
+//@   loop 2 step deref(current) == prev(deref(current)) || deref(current) == cat(prev(deref(current)), sbyte(ch))
+// -- heredoc tag
+//@   loop 3 invariant len(args) >= 1 && rpos(reader) >= 0 && len(buf) == 1
+//@   loop 3 step eof == prev(eof) || eof == cat(prev(eof), sbyte(ch))
+// -- heredoc body
+//@   loop 4 invariant len(args) >= 1 && rpos(reader) >= 0 && len(buf) == 1
+//@   loop 4 step value == cat(prev(value), sbyte(rinput(payload(reader))[rpos(reader) - 1]))
+
+//@ func SplitArguments [C17]
